@@ -41,6 +41,27 @@ pub fn resample_all_opts<T: Flt>(cfg: &Cfg, x: &[f64], pre: Option<f64>, ramp: b
 /// The most general form: with `warmup > 0` the resampler first processes that many chunks of a
 /// loud alternating signal (for the sinc types after set_chunk_size(chunk/2)) and is then reset.
 pub fn resample_all_full<T: Flt>(cfg: &Cfg, x: &[f64], pre: Option<f64>, ramp: bool, rejected_first: bool, warmup: usize) -> Result<Streamed, String> {
+    resample_all_x::<T>(cfg, x, &Opts { pre, ramp, rejected_first, warmup, ..Opts::default() })
+}
+
+/// What happens to the fresh resampler before / while the stream `x` is fed through it.
+#[derive(Clone, Debug, Default)]
+pub struct Opts {
+    /// set_resample_ratio_relative(pre, ramp) before the first call
+    pub pre: Option<f64>,
+    pub ramp: bool,
+    /// with `pre`: the same relative ratio is requested twice, first with ramp, then without
+    pub ramp_then_step: bool,
+    /// one rejected call (last input channel one frame short) first
+    pub rejected_first: bool,
+    /// that many loud chunks (changed chunk size, pending ramp), then reset(), first
+    pub warmup: usize,
+    /// after `pre2.1` processing calls: set_resample_ratio_relative(pre2.0, false)
+    pub pre2: Option<(f64, usize)>,
+}
+
+pub fn resample_all_x<T: Flt>(cfg: &Cfg, x: &[f64], opts: &Opts) -> Result<Streamed, String> {
+    let (pre, ramp, rejected_first, warmup) = (opts.pre, opts.ramp, opts.rejected_first, opts.warmup);
     let mut r = cfg.build::<T>()?;
     if warmup > 0 {
         if cfg.kind.is_sinc() {
@@ -64,7 +85,12 @@ pub fn resample_all_full<T: Flt>(cfg: &Cfg, x: &[f64], pre: Option<f64>, ramp: b
         r.reset();
     }
     if let Some(rel) = pre {
-        r.set_resample_ratio_relative(rel, ramp).map_err(|e| format!("set_resample_ratio_relative({}) failed: {}", rel, e))?;
+        if opts.ramp_then_step {
+            r.set_resample_ratio_relative(rel, true).map_err(|e| format!("set_resample_ratio_relative({}, true) failed: {}", rel, e))?;
+            r.set_resample_ratio_relative(rel, false).map_err(|e| format!("set_resample_ratio_relative({}, false) failed: {}", rel, e))?;
+        } else {
+            r.set_resample_ratio_relative(rel, ramp).map_err(|e| format!("set_resample_ratio_relative({}) failed: {}", rel, e))?;
+        }
     }
     if rejected_first {
         let need = r.input_frames_next();
@@ -105,7 +131,14 @@ pub fn resample_all_full<T: Flt>(cfg: &Cfg, x: &[f64], pre: Option<f64>, ramp: b
             .map_err(|e| format!("process_into_buffer failed at input frame {}: {}", pos, e))?;
         out.extend(obuf[0][..o].iter().map(|v| v.to64()));
         calls.push((i, o));
-        if delay_changed.is_none() && r.output_delay() != delay {
+        if let Some((rel2, after)) = opts.pre2 {
+            if calls.len() == after {
+                r.set_resample_ratio_relative(rel2, false).map_err(|e| format!("set_resample_ratio_relative({}) failed: {}", rel2, e))?;
+            }
+        }
+        if opts.pre2.is_some() {
+            // the delay legitimately follows the ratio
+        } else if delay_changed.is_none() && r.output_delay() != delay {
             delay_changed = Some((calls.len() - 1, r.output_delay()));
         }
         pos += i;
